@@ -36,7 +36,7 @@ PROPS = {
         "claim": 'Decides the counter-pairing rules GC4 in both directions (every +1 is a put-gain or join-gain, every −1 a first read of a grouped vertex, and conversely), GC3, GC5, GC6b, GC9 on all CFG paths; with DESIGN §5.0 this gives counter == number of unread data of the group after every call, hence exact collection and no underflow. The capacity limits are preconditions and are not checked.',
         "note": 'Trusted: as C01. Does not decide the capacity limits (16 members, 14 groups).',
         "technique": 'MIR pairing / co-occurrence rules on counter and tag events',
-        "rules": [("GC3", G.gc3), ("GC4", G.gc4), ("GC5", G.gc5), ("GC6b", functools.partial(G.gc6, parts="b")), ("GC9", G.gc9)],
+        "rules": [("GC3", G.gc3), ("GC4", G.gc4), ("GC5", G.gc5), ("GC6b", functools.partial(G.gc6, parts="b")), ("GC9", G.gc9), ("LM", G.limits)],
         "explanation": "GC exactness: the unread counter of a group changes by exactly the put-gain / join-gain / read-loss "
                        "transitions (GC4, both directions), tags and member lists change together (GC5), the destroyed list is "
                        "cleared (GC6b), read arms (GC3), slot totality (GC9).",
@@ -57,7 +57,7 @@ PROPS = {
         "claim": "Decides GC6a–d and GC5: a new group only takes a slot tested empty by an unrestricted scan of all slots, a destroyed group's list is cleared on every returning path of the same call, the constructor installs non-empty sentinels at 0 and 1 and zeroed tables, and no other function touches the tables; with I1–I3 a slot is free iff its list is empty, for histories of any length.",
         "note": "Trusted: as C01; 'fewer than 14 groups alive' is the precondition under which the search succeeds.",
         "technique": 'MIR who-may-call + guard + post-dominance rules on the slot table',
-        "rules": [("GC5", G.gc5), ("GC6", functools.partial(G.gc6, parts="abcd")), ("GC2", G.gc2), ("GC4", G.gc4)],
+        "rules": [("GC5", G.gc5), ("GC6", functools.partial(G.gc6, parts="abcd")), ("GC2", G.gc2), ("GC4", G.gc4), ("LM", G.limits)],
         "explanation": "slot discipline: new groups take a slot checked empty over an unrestricted scan (GC6a), destruction clears "
                        "the list on all paths (GC6b), sentinels and zeroed tables in the constructor (GC6c), nobody else touches "
                        "the tables (GC6d), membership pairing (GC5); GC2/GC4 give I2 (a destroyed group's counter is 0 again).",
@@ -149,7 +149,7 @@ PROPS = {
         "claim": "Decides the sodg-side clause, in the conservative direction: no user-written unsafe block/fn/impl/extern block, raw pointer or transmute anywhere in the crate (HIR + MIR); every resolved callee in emap/micromap/microstack is outside the audited deny-list (uninitialised constructor, bitwise-reading iterators, *_unchecked, any unsafe fn), so each element access goes through an entry point that asserts its bound in a debug-assertion build; Stack::from_vec only on a literal of at most 16 elements; the locked checksums of the containers equal the audited ones; the element types for which the containers' bitwise reads are sound are unchanged; a graph built from the ids of another one (slice) gets that graph's vertex capacity. It can reject code that is in fact safe; it cannot accept code that leaves the checked API. Does not decide the containers' internals, release builds, or 'calls within the limits complete' (C02's no-panic clause). GC6c: the two group tables are created with the same size, so a group id valid for one is valid for the other.",
         "note": "Trusted: the audit of emap 0.0.13 / micromap 0.0.19 / microstack 0.0.7 by reading (DESIGN §3): bounds asserted under debug_assertions, push asserts in all builds. Claimed for debug-assertion builds only, as the property says.",
         "technique": "HIR/MIR unsafe scan + who-may-call deny-list over resolved callees + lockfile/type facts",
-        "rules": [("MS1", MS.ms1), ("MS2", MS.ms2), ("MS3", MS.ms3), ("MS4", MS.ms4), ("MS5", MS.ms5), ("MS6", MS.ms6), ("GC6c", functools.partial(G.gc6, parts="c")), ("MS2x", MS.ms_cross)],
+        "rules": [("MS1", MS.ms1), ("MS2", MS.ms2), ("MS3", MS.ms3), ("MS4", MS.ms4), ("MS5", MS.ms5), ("MS6", MS.ms6), ("GC6c", functools.partial(G.gc6, parts="c")), ("LM", G.limits), ("MS2x", MS.ms_cross)],
         "explanation": "MS1 no unsafe, MS2 container deny-list over all resolved callees (floor 60 sites), MS3 from_vec literal, MS4 audited checksums, MS5 element types; thorough adds a clippy disallowed_methods cross-check.",
         "trusted": [RUSTC, CONTAINERS],
         "assumptions": ["debug-assertion builds"],
